@@ -54,6 +54,18 @@ func VerifDirtyCacheEntry(v any) bool {
 	return ok && ce.val != nil && ce.val.isDirty()
 }
 
+// VerifDirtyCount is the number of dirty pages the store's cache holds.
+func VerifDirtyCount(rs *RelationService) int {
+	lru := rs.fs.cache
+	n := 0
+	for e := lru.list.Front(); e != nil; e = e.Next() {
+		if ce, ok := e.Value.(*cacheEntry); ok && ce.val != nil && ce.val.isDirty() {
+			n++
+		}
+	}
+	return n
+}
+
 // VerifStoreLock returns the address of the store's RWMutex (for verifLockHeld).
 func VerifStoreLock(rs *RelationService) any { return &rs.fs.mtx }
 
